@@ -17,9 +17,9 @@ theorem Frame.of_same {sl cur fs fs'} (F : Frame sl cur fs) (h1 : fs'.segmeta = 
   · intro s hs; rw [h2] at hs; rw [h3]; exact F.untouched s hs
   · intro s hs; rw [h2] at hs; exact Nat.lt_of_lt_of_le (F.suffix_ok s hs) h4
 
-theorem good_preopen {sl n nf fs extra lost} (P : PreOpen sl n nf fs) : Good nf extra lost fs := by
+theorem good_preopen {sl n nf fs extra} (P : PreOpen sl n nf fs) : Good nf extra fs := by
   have ids : flat sl ++ [] = List.range nf := by simpa using P.ids
-  exact good_a P.frame (fun h => P.not_in h.1) ids (fun _ => rfl)
+  exact good_a P.frame (fun h => P.not_in h.1) ids rfl
 
 theorem preopen_1 {sl n nf fs} (P : PreOpen sl n nf fs) : PreOpen sl n nf (apply fs (.suffixTmp (n + 1))) := by
   refine ⟨P.frame.of_same rfl rfl rfl (Nat.le_refl _), P.not_in, P.next, P.ids⟩
@@ -62,15 +62,15 @@ theorem inv_open {sl n nf fs} (P : PreOpen sl n nf fs) :
     simpa using P.ids
 
 /-- every proper cut of `openSteps n` -/
-theorem open_prefix {sl n nf fs extra lost} (P : PreOpen sl n nf fs) (j : Nat) (hj : j < 3) :
-    Good nf extra lost (run fs ((openSteps n).take j)) := by
+theorem open_prefix {sl n nf fs extra} (P : PreOpen sl n nf fs) (j : Nat) (hj : j < 3) :
+    Good nf extra (run fs ((openSteps n).take j)) := by
   match j, hj with
   | 0, _ => exact good_preopen P
   | 1, _ => exact good_preopen (preopen_1 P)
   | 2, _ =>
     have ⟨F, hn, _⟩ := frame_open_2 P
     have ids : flat sl ++ [] = List.range nf := by simpa using P.ids
-    exact good_a F (fun h => hn h.1) ids (fun _ => rfl)
+    exact good_a F (fun h => hn h.1) ids rfl
 
 /-! ### a buffer flush -/
 
@@ -97,7 +97,7 @@ theorem inv_flush {sl w fs} (I : Inv sl w fs) (ws : List Nat) :
       { (fs.seg w.cur) with
           chunks := (fs.seg w.cur).chunks ++ ws.map (fun c => (w.nf, c)),
           bsu := (fs.seg w.cur).bsu ++ [(w.nf, ws)],
-          sstTmp := none, sst := some (w.fls ++ [w.nf]), sfm := .json (w.fls ++ [w.nf]) } := by
+          sstTmp := none, sst := some (w.fls ++ [w.nf]), sfmTmp := none, sfm := .json (w.fls ++ [w.nf]) } := by
     rw [hseg]
     simp [flushSteps, List.foldl_append, chunks_fold, applySeg]
   refine ⟨F, S.dirs ▸ I.cur_in, ?_, ?_, S.suffix.trans I.suffix, ?_⟩
@@ -116,16 +116,15 @@ theorem inv_parsable {sl w fs} (I : Inv sl w fs) : (fs.seg w.cur).sfm.parsable =
   by_cases h : w.fls = [] <;> simp [h, Sfm.parsable]
 
 /-- a restart right at a command boundary serves exactly the completed flushes -/
-theorem good_inv {sl w fs extra lost} (I : Inv sl w fs) : Good w.nf extra lost fs := by
+theorem good_inv {sl w fs extra} (I : Inv sl w fs) : Good w.nf extra fs := by
   by_cases h : w.fls = []
-  · refine good_a I.frame (fun hh => ?_) I.ids (fun _ => h)
+  · refine good_a I.frame (fun hh => ?_) I.ids h
     exact ((inv_parsable I).1 hh.2) h
   · exact good_b I.frame I.cur_in ((inv_parsable I).2 h) I.cur_ok I.ids (Or.inl rfl)
 
 /-- every proper cut of a buffer flush -/
 theorem flush_prefix {sl w fs} (I : Inv sl w fs) (ws : List Nat) (k : Nat) (hk : k < (flushSteps w ws).length) :
-    Good w.nf (if 0 < k then some w.nf else none) (isTrunc ((flushSteps w ws).take k).getLast?)
-      (run fs ((flushSteps w ws).take k)) := by
+    Good w.nf (if 0 < k then some w.nf else none) (run fs ((flushSteps w ws).take k)) := by
   rw [flushSteps_length] at hk
   have hon : ∀ s ∈ (flushSteps w ws).take k, onSeg w.cur s = true :=
     fun s hs => flushSteps_onSeg w ws s (mem_take hs)
@@ -145,66 +144,38 @@ theorem flush_prefix {sl w fs} (I : Inv sl w fs) (ws : List Nat) (k : Nat) (hk :
       rw [hst]; exact segOK_chunks I.cur_ok _
     have hsfm : ((run fs ((flushSteps w ws).take k)).seg w.cur).sfm = (fs.seg w.cur).sfm := by rw [hst]
     by_cases h : w.fls = []
-    · refine good_a F (fun hh => ?_) I.ids (fun _ => h)
+    · refine good_a F (fun hh => ?_) I.ids h
       rw [hsfm] at hh
       exact ((inv_parsable I).1 hh.2) h
     · refine good_b F hin ?_ hok I.ids (Or.inl rfl)
       rw [hsfm]; exact (inv_parsable I).2 h
-  · -- all chunks written, j ∈ {1,2,3,4} of the five meta steps done
+  · -- all chunks written, j ∈ {1,2,3,4} of the five meta steps done: the block summary is there, the running
+    -- .sfm still is the previous one (the new one exists at most as .sfm.tmp)
     have hj : ∃ j, k = ws.length + j ∧ 1 ≤ j ∧ j ≤ 4 := ⟨k - ws.length, by omega, by omega, by omega⟩
     rcases hj with ⟨j, rfl, hj1, hj4⟩
     have hpos : 0 < ws.length + j := by omega
     rw [if_pos hpos]
     have htake : (flushSteps w ws).take (ws.length + j) =
         ws.map (fun c => Step.chunk w.cur w.nf c) ++
-          ([Step.bsu w.cur w.nf ws, .sstTmp w.cur (w.fls ++ [w.nf]), .sstRename w.cur, .sfmTrunc w.cur,
-            .sfmWrite w.cur (w.fls ++ [w.nf])].take j) := by
+          ([Step.bsu w.cur w.nf ws, .sstTmp w.cur (w.fls ++ [w.nf]), .sstRename w.cur, .sfmTmp w.cur (w.fls ++ [w.nf]),
+            .sfmRename w.cur].take j) := by
       unfold flushSteps
       rw [List.take_append, List.length_map, List.take_of_length_le (by simp), Nat.add_sub_cancel_left]
-    have hcases : j = 1 ∨ j = 2 ∨ j = 3 ∨ j = 4 := by omega
-    rcases hcases with rfl | rfl | rfl | rfl
-    all_goals
-      simp only [List.take] at htake
-      rw [htake] at hseg F hin ⊢
-      simp only [List.foldl_append, chunks_fold, List.foldl, applySeg] at hseg
-    · -- block summary written
-      have hok : SegOK ((run fs (ws.map (fun c => Step.chunk w.cur w.nf c) ++ [Step.bsu w.cur w.nf ws])).seg w.cur) (w.fls ++ [w.nf]) := by
-        rw [hseg]; exact segOK_congr (segOK_bsu I.cur_ok w.nf ws) rfl rfl
-      have hsfm : ((run fs (ws.map (fun c => Step.chunk w.cur w.nf c) ++ [Step.bsu w.cur w.nf ws])).seg w.cur).sfm = (fs.seg w.cur).sfm := by
+    generalize hfs' : run fs ((flushSteps w ws).take (ws.length + j)) = fs' at F hin hseg ⊢
+    have hst : SegOK (fs'.seg w.cur) (w.fls ++ [w.nf]) ∧ (fs'.seg w.cur).sfm = (fs.seg w.cur).sfm := by
+      have hcases : j = 1 ∨ j = 2 ∨ j = 3 ∨ j = 4 := by omega
+      rcases hcases with rfl | rfl | rfl | rfl
+      all_goals
+        simp only [List.take] at htake
+        rw [htake] at hseg
+        simp only [List.foldl_append, chunks_fold, List.foldl, applySeg] at hseg
         rw [hseg]
-      by_cases h : w.fls = []
-      · refine good_a F (fun hh => ?_) I.ids (fun _ => h)
-        rw [hsfm] at hh
-        exact ((inv_parsable I).1 hh.2) h
-      · refine good_b F hin ?_ hok I.ids (Or.inr ⟨rfl, rfl⟩)
-        rw [hsfm]; exact (inv_parsable I).2 h
-    · -- .sst.tmp written
-      have hok : SegOK ((run fs (ws.map (fun c => Step.chunk w.cur w.nf c) ++ [Step.bsu w.cur w.nf ws, .sstTmp w.cur (w.fls ++ [w.nf])])).seg w.cur) (w.fls ++ [w.nf]) := by
-        rw [hseg]; exact segOK_congr (segOK_bsu I.cur_ok w.nf ws) rfl rfl
-      have hsfm : ((run fs (ws.map (fun c => Step.chunk w.cur w.nf c) ++ [Step.bsu w.cur w.nf ws, .sstTmp w.cur (w.fls ++ [w.nf])])).seg w.cur).sfm = (fs.seg w.cur).sfm := by
-        rw [hseg]
-      by_cases h : w.fls = []
-      · refine good_a F (fun hh => ?_) I.ids (fun _ => h)
-        rw [hsfm] at hh
-        exact ((inv_parsable I).1 hh.2) h
-      · refine good_b F hin ?_ hok I.ids (Or.inr ⟨rfl, rfl⟩)
-        rw [hsfm]; exact (inv_parsable I).2 h
-    · -- .sst renamed
-      have hok : SegOK ((run fs (ws.map (fun c => Step.chunk w.cur w.nf c) ++ [Step.bsu w.cur w.nf ws, .sstTmp w.cur (w.fls ++ [w.nf]), .sstRename w.cur])).seg w.cur) (w.fls ++ [w.nf]) := by
-        rw [hseg]; exact segOK_congr (segOK_bsu I.cur_ok w.nf ws) rfl rfl
-      have hsfm : ((run fs (ws.map (fun c => Step.chunk w.cur w.nf c) ++ [Step.bsu w.cur w.nf ws, .sstTmp w.cur (w.fls ++ [w.nf]), .sstRename w.cur])).seg w.cur).sfm = (fs.seg w.cur).sfm := by
-        rw [hseg]
-      by_cases h : w.fls = []
-      · refine good_a F (fun hh => ?_) I.ids (fun _ => h)
-        rw [hsfm] at hh
-        exact ((inv_parsable I).1 hh.2) h
-      · refine good_b F hin ?_ hok I.ids (Or.inr ⟨rfl, rfl⟩)
-        rw [hsfm]; exact (inv_parsable I).2 h
-    · -- the running .sfm truncated, not yet written: the open segment cannot be adopted
-      have hsfm : ((run fs (ws.map (fun c => Step.chunk w.cur w.nf c) ++ [Step.bsu w.cur w.nf ws, .sstTmp w.cur (w.fls ++ [w.nf]), .sstRename w.cur, .sfmTrunc w.cur])).seg w.cur).sfm = Sfm.empty := by
-        rw [hseg]
-      refine good_a F (fun hh => ?_) I.ids (fun hl => ?_)
-      · rw [hsfm] at hh; simp [Sfm.parsable] at hh
-      · simp [List.getLast?_append, isTrunc] at hl
+        exact ⟨segOK_congr (segOK_bsu I.cur_ok w.nf ws) rfl rfl, rfl⟩
+    by_cases h : w.fls = []
+    · refine good_a F (fun hh => ?_) I.ids h
+      rw [hst.2] at hh
+      exact ((inv_parsable I).1 hh.2) h
+    · refine good_b F hin ?_ hst.1 I.ids (Or.inr ⟨rfl, rfl⟩)
+      rw [hst.2]; exact (inv_parsable I).2 h
 
 end SigModel.Lemmas.C07
